@@ -1,12 +1,23 @@
 /-
   Props/C09.lean — property theorems for C09 (disk/network counters: exact per-device values,
-  totals never double count; disk_usage formulas). Helper lemmas: Proofs/C09.lean, Proofs/C09Disk.lean.
+  totals never double count; disk_usage formulas). Helper lemmas: Proofs/C09.lean (net, text),
+  Proofs/C09Disk.lean (/proc/diskstats, /sys/block filter), Proofs/C09Sysfs.lean (read_sysfs),
+  Proofs/C09Order.lean (listing orders), Proofs/C09Usage.lean (disk_usage order facts, rounding).
 
-  `netCfg`, `diskCfg`, `usageCfg` and the field-name lists come from Generated/C09.lean, which
-  the translator rewrites from /repo's source on every run. The theorems below are *about the
+  `netCfg`, `diskCfg`, `sysfsCfg`, `usageCfg` and the field-name lists come from Generated/C09.lean,
+  which the translator rewrites from /repo's source on every run. The theorems below are *about the
   model instantiated with those facts*; a changed column order, branch guard, slice bound,
   sector size, skip condition, namedtuple field or disk_usage assignment makes them fail to
-  build.
+  build as long as the edit keeps a shape the translator recognises; every statement of the anchored
+  functions that is NOT turned into a model parameter is pinned verbatim by `C09_code_frame`; a
+  fact the translator cannot extract any more counts as a broken obligation (runner).
+
+  The order of the items of the per-device dicts IS part of `C09_net` / `C09_disk` (the order of the
+  lines of the file) and is compared by the correspondence; the `/sys/block` source promises the
+  dict only up to the order of its items (`C09_sysfs_any_order`, `Expect.same`).
+  The 15-field layout is psutil's own (named as such in the property's quantifier, pinned by its
+  test-suite): `C09_disk_roundtrip_15` characterises the code against that layout, it is not a
+  kernel format (the real Linux 2.4 statistics lived in /proc/partitions with another column order).
 -/
 import PsutilModel.Proofs.C09Disk
 import PsutilModel.Proofs.C09Sysfs
@@ -48,8 +59,42 @@ theorem C09_disk_constants :
 
 /-- empty raw dict → `{}` per device, `None` for the total, in both front ends -/
 theorem C09_empty_literals :
-    Gen.C09.frontEmpty = ["{}", "None", "{}", "None"] ∧
-    Gen.C09.usagePercentIsRatioTimes100 = true := by decide
+    Gen.C09.frontEmpty = ["{}", "None", "{}", "None"] := by decide
+
+/-- obligation: `_common.usage_percent` still has the body `diskUsage` transcribes (ratio · 100, `0.0` on
+    ZeroDivisionError, `round(ret, round_)`); with `false` the model answers `none` and `C09_disk_usage` fails -/
+theorem cfg_usage_percent_shape : usageCfg.pctShape = true := by decide
+
+/-- obligation (audit item 6): `open_text` reads with `newline="\n"`, not with universal newlines — a `\r`
+    inside an interface name or header line does not end a line. `C09_net*` / `C09_disk*` are proved for this
+    mode only (no hypothesis on `\r`); a return to universal newlines stops them building. -/
+theorem cfg_no_universal_newlines : netCfg.univNl = false ∧ diskCfg.univNl = false := by decide
+
+/-- obligation: **everything else the anchored functions do**. Every statement of `_pslinux.net_io_counters`,
+    `_pslinux.disk_io_counters` (with `read_procfs` and the aggregation loop) and — for `nowrap=False` — of
+    the two front ends that is not turned into a parameter of the model by another fact is what the model
+    transcribes: read all lines, start from an empty dict, loop, return the dict; nothing is filtered,
+    truncated, re-ordered or post-processed. An inserted `if name.startswith(…): continue`, `readlines(n)`,
+    `dict(sorted(…))`, `rawdict = {… if any(v)}` changes one of these lists. -/
+theorem C09_code_frame :
+    Gen.C09.netFrame =
+      ["with open_text(f'{get_procfs_path()}/net/dev') as f:\n    lines = f.readlines()", "retdict = {}",
+       "for line in lines[<netSkipLines>:]: <loop>", "return retdict"] ∧
+    Gen.C09.diskFrame =
+      ["def read_procfs(): <read_procfs>", "def read_sysfs(): <facts sysfs*>",
+       "if os.path.exists(...): <fact diskSources> else: <fact diskNoSource>", "retdict = {}",
+       "for entry in gen: <aggregation loop>", "return retdict",
+       "read_procfs: with open_text(f'{get_procfs_path()}/diskstats') as f:\n    lines = f.readlines()",
+       "read_procfs: for line in lines: <loop>"] ∧
+    Gen.C09.frontFrame =
+      [["kwargs = dict(perdisk=perdisk) if LINUX else {}",
+        "name = 'psutil.disk_io_counters.perdisk' if perdisk else 'psutil.disk_io_counters'",
+        "rawdict = _psplatform.disk_io_counters(**kwargs)", "if not rawdict:\n    return {} if perdisk else None",
+        "nt = getattr(_psplatform, 'sdiskio', _common.sdiskio)",
+        "if perdisk:\n    for disk, fields in rawdict.items():\n        rawdict[disk] = nt(*fields)\n    return rawdict\nelse:\n    return nt(*(sum(x) for x in zip(*rawdict.values())))"],
+       ["rawdict = _psplatform.net_io_counters()", "if not rawdict:\n    return {} if pernic else None",
+        "if pernic:\n    for nic, fields in rawdict.items():\n        rawdict[nic] = _common.snetio(*fields)\n    return rawdict\nelse:\n    return _common.snetio(*[sum(x) for x in zip(*rawdict.values())])"]] := by
+  exact ⟨rfl, rfl, rfl⟩
 
 /-! ## /proc/net/dev -/
 
@@ -63,12 +108,14 @@ theorem C09_net_line_roundtrip (i : Iface) (hn : WFName netCfg.nameWs i.name) :
 
 theorem netPlatform_gen (h1 h2 : Bytes) (ifs : List Iface) (wf : NetWF netCfg.nameWs h1 h2 ifs) :
     netPlatform netCfg (renderNetDev h1 h2 ifs) = .ok (ifs.map fun i => (i.name, tuple8 i)) :=
-  netPlatform_render netCfg C09_net_cfg.2.1 C09_net_cfg.2.2.1 C09_net_cfg.1 C09_net_cfg.2.2.2 tuple8
-    (fun _ => rfl) h1 h2 ifs wf
+  netPlatform_render netCfg C09_net_cfg.2.1 C09_net_cfg.2.2.1 C09_net_cfg.1 C09_net_cfg.2.2.2
+    cfg_no_universal_newlines.1 tuple8 (fun _ => rfl) h1 h2 ifs wf
 
 /-- **net, all in one**: for every interface table, `psutil.net_io_counters(pernic)` over the
     kernel-rendered file is exactly what the property promises: per interface the documented
-    fields; system-wide their field-wise sum; `{}` / `None` when nothing is listed -/
+    fields, the items in the order of the lines of the file; system-wide their field-wise sum;
+    `{}` / `None` when nothing is listed. (`NetWF`: header lines and names without `\n`, names non-empty,
+    not beginning or ending with a blank, pairwise distinct; `\r`, `:`, `/`, inner blanks allowed.) -/
 theorem C09_net (h1 h2 : Bytes) (ifs : List Iface) (wf : NetWF netCfg.nameWs h1 h2 ifs) (pernic : Bool) :
     netIoCounters pernic (renderNetDev h1 h2 ifs) = (expectNet pernic ifs).toOut := by
   unfold netIoCounters
@@ -138,9 +185,10 @@ theorem C09_net_find_counterexample (i : Iface) (h : i.name = [97, 58, 98]) :
 
 /-! ### every name the kernel accepts (lead: control characters / Unicode spaces at the ends) -/
 
-/-- full strength: EVERY interface name free of C-locale whitespace — so also one that
-    begins or ends with 0x1c–0x1f, which `str.strip()` regards as whitespace — is reported
-    unchanged -/
+/-- full strength, **name only and per line**: the line of EVERY interface whose name is free of C-locale
+    whitespace — so also one that begins or ends with 0x1c–0x1f, which `str.strip()` regards as whitespace —
+    parses, and to that very name (the counters `t` are not constrained here: `C09_net_line_roundtrip`; the
+    statement about whole files of such names is `C09_net_kernel_names`) -/
 def C09_net_every_kernel_name_Full (cfg : NetCfg) : Prop :=
   ∀ i : Iface, KName i.name → ∃ t, netLine cfg (renderNetLine i) = .ok (i.name, t)
 
@@ -154,13 +202,12 @@ theorem wf_of_KName {n : Bytes} (h : KName n) : WFName (fun c => [32].contains c
       simp at hcc
       rw [hcc] at this
       exact absurd this (by decide)
-  refine ⟨h.1, ?_, ?_, ?_, ?_⟩
+  refine ⟨h.1, ?_, ?_, ?_⟩
   · intro c hc
     exact hws c ⟨c, Or.inl hc⟩ (List.mem_of_mem_head? hc)
   · intro c hc
     exact hws c ⟨c, Or.inr (Or.inl hc)⟩ (List.mem_of_getLast? hc)
   · intro hm; exact absurd (h.2 10 hm) (by decide)
-  · intro hm; exact absurd (h.2 13 hm) (by decide)
 
 /-- with `line[:colon].strip(' ')` (only the kernel's padding is removed) the full statement holds -/
 theorem C09_net_every_kernel_name_fixed :
@@ -185,6 +232,16 @@ theorem C09_net_every_kernel_name (h : netCfg.stripSet = some [32]) :
     `netNameStrip` into `none` and this theorem no longer builds. -/
 theorem C09_net_names_full : C09_net_every_kernel_name_Full netCfg :=
   C09_net_every_kernel_name (by decide)
+
+/-- **whole files of kernel names** (audit item 7): every table of pairwise distinct interfaces whose names are
+    free of C-locale whitespace (`KName`: whatever `dev_valid_name` lets through, and more), under any two
+    header lines, gives exactly the promised answer — no hypothesis phrased in terms of the code's strip set -/
+theorem C09_net_kernel_names (h1 h2 : Bytes) (hh1 : 10 ∉ h1) (hh2 : 10 ∉ h2) (ifs : List Iface)
+    (hk : ∀ i ∈ ifs, KName i.name) (hd : (ifs.map (·.name)).Nodup) (pernic : Bool) :
+    netIoCounters pernic (renderNetDev h1 h2 ifs) = (expectNet pernic ifs).toOut := by
+  have hs : netCfg.nameWs = fun c => [32].contains c := by
+    funext c; simp [NetCfg.nameWs, show netCfg.stripSet = some [32] from by decide]
+  exact C09_net h1 h2 ifs ⟨hh1, hh2, fun i hi => hs ▸ wf_of_KName (hk i hi), hd⟩ pernic
 
 /-- with the bare `line[:colon].strip()` it is false: the interface named `a\x1f` is reported
     as `a` (and collides with a real `a`) -/
@@ -307,6 +364,23 @@ theorem C09_disk (devs : List Dev) (wf : DiskWF devs) (perdisk : Bool) :
       rw [hf]
       rfl
 
+/-- **disk, any `/sys/block`** (audit item 7): the per-device form does not depend on `/sys/block` at all and
+    needs only pairwise distinct names; the system-wide form is the sum over the whole disks for EVERY listing
+    `sb` of `/sys/block` that lists the table's whole disks (under their `/` → `!` names) and none of its
+    partitions — whatever else it lists (disks without a line in the file, other entries), in any order -/
+theorem C09_disk_any_sysblock (devs : List Dev) (wf : DiskTable devs) (sb : List Bytes) (perdisk : Bool)
+    (hl : perdisk = false → ∀ d ∈ devs, (sysName d.name ∈ sb ↔ d.partition = false) ∧
+            sysName d.name ≠ [46] ∧ sysName d.name ≠ [46, 46]) :
+    diskIoCounters sb perdisk (renderDiskstats devs) = (expectDisk perdisk devs).toOut := by
+  have hp := diskPlatform_render_st devs wf perdisk (isStorageDevice diskCfg sb)
+    (fun hper d hd => isStorage_of_listing devs sb (fun x hx => (hl hper x hx).1) (fun x hx => (hl hper x hx).2) d hd)
+  have hstd : diskIoCounters sb perdisk (renderDiskstats devs)
+      = frontEnd Gen.C09.sdiskioFields diskAgg diskEmptyPer diskEmptyTot perdisk
+          (.ok ((if perdisk then devs else wholeDisks devs).map fun d => (d.name, vals9 d.stat))) := by
+    unfold diskIoCounters; rw [hp]
+  rw [hstd, frontEnd_disk]
+  cases expectDisk perdisk devs <;> rfl
+
 /-- per device: every listed device (disk or partition) with exactly its documented fields -/
 theorem C09_disk_roundtrip (devs : List Dev) (wf : DiskWF devs) (hne : devs ≠ []) :
     diskIoCounters (sysBlock devs) true (renderDiskstats devs)
@@ -329,10 +403,10 @@ theorem C09_total_is_sum_of_whole_disks (devs : List Dev) (wf : DiskWF devs)
 
 /-- nothing is counted twice: deleting every partition line from the file (and nothing from
     `/sys/block`) leaves the system-wide total unchanged -/
-theorem C09_partitions_do_not_count (devs : List Dev) (wf : DiskWF devs) (wfw : DiskWF (wholeDisks devs)) :
+theorem C09_partitions_do_not_count (devs : List Dev) (wf : DiskWF devs) :
     diskIoCounters (sysBlock devs) false (renderDiskstats devs)
       = diskIoCounters (sysBlock (wholeDisks devs)) false (renderDiskstats (wholeDisks devs)) := by
-  rw [C09_disk devs wf false, C09_disk _ wfw false]
+  rw [C09_disk devs wf false, C09_disk _ (diskWF_wholeDisks wf) false]
   have : wholeDisks (wholeDisks devs) = wholeDisks devs := by simp [wholeDisks]
   simp only [expectDisk, this, Bool.false_eq_true, if_false]
 
@@ -633,12 +707,26 @@ def envOf (st : StatVfs) : List (String × Int) :=
    ("st.f_namemax", st.namemax)]
 
 /-- `total = blocks·frsize`, `used = total − bfree·frsize`, `free = bavail·frsize`,
-    `percent = round(used / (used + free) · 100, 1)` (0 when `used + free = 0`) -/
+    `percent = round(used / (used + free) · 100, 1)` (0 when `used + free = 0`): the model RETURNS the
+    rounded value (`percent`), `percentExact` is the ratio before rounding -/
 theorem C09_disk_usage (st : StatVfs) :
     diskUsage usageCfg (envOf st)
       = some { total := (usage st).total, used := (usage st).used, free := (usage st).free,
-               percentExact := (usage st).percent, roundDigits := 1 } := by
+               percentExact := (usage st).percent, percent := roundTo 1 (usage st).percent, roundDigits := 1 } := by
   rfl
+
+/-- **the returned percentage** (audit item 4): a multiple of 1/10 within 0.05 of used / (used + free) · 100,
+    and inside [0, 100] on a file system whose free count does not exceed its size. (CPython computes it on
+    IEEE doubles: the float error is TRUSTED, the correspondence compares at 1e-9.) -/
+theorem C09_disk_usage_percent_returned (st : StatVfs) :
+    ∃ u, diskUsage usageCfg (envOf st) = some u ∧
+      |u.percent - (usage st).percent| ≤ 1 / 20 ∧ u.percent = round1 (usage st).percent ∧
+      (st.bfree ≤ st.blocks → 0 ≤ u.percent ∧ u.percent ≤ 100) := by
+  refine ⟨_, C09_disk_usage st, ?_, roundTo_one _, ?_⟩
+  · simp only [roundTo_one]; exact round1_close _
+  · intro h
+    simp only [roundTo_one]
+    exact round1_range _ (usage_percent_range st h).1 (usage_percent_range st h).2
 
 /-- on a file system whose free count does not exceed its size, 0 ≤ percent ≤ 100 -/
 theorem C09_usage_percent_range (st : StatVfs) (h : st.bfree ≤ st.blocks) :
@@ -648,7 +736,8 @@ theorem C09_usage_percent_range (st : StatVfs) (h : st.bfree ≤ st.blocks) :
 theorem C09_usage_within_total (st : StatVfs) (h : st.bavail ≤ st.bfree) :
     (usage st).used + (usage st).free ≤ (usage st).total := usage_within_total st h
 
-/-- rounding to one decimal moves the percentage by at most 0.05 -/
+/-- rounding to one decimal moves a value by at most 0.05 (lemma about `round1`; the statement about the value
+    `disk_usage` returns is `C09_disk_usage_percent_returned`) -/
 theorem C09_usage_round1_close (q : Rat) : |round1 q - q| ≤ 1 / 20 := round1_close q
 
 /-! ## /sys/block in any listing order -/
@@ -738,7 +827,8 @@ theorem C09_disk_usage_call (e : Nat) (st : StatVfs) :
     diskUsageCall usageCfg (.error e) = .raised e ∧
     diskUsageCall usageCfg (.ok (envOf st))
       = .value (some { total := (usage st).total, used := (usage st).used, free := (usage st).free,
-                       percentExact := (usage st).percent, roundDigits := 1 }) :=
+                       percentExact := (usage st).percent, percent := roundTo 1 (usage st).percent,
+                       roundDigits := 1 }) :=
   ⟨rfl, by rw [diskUsageCall, C09_disk_usage]⟩
 
 /-! ## translator-fed obligations of the second extension round -/
@@ -761,8 +851,16 @@ theorem C09_front_defaults : Gen.C09.frontPerDefault = ["False", "False"] := by 
 /-! ## the hypotheses are satisfiable -/
 
 example : WFName netCfg.nameWs [101, 116, 104, 48, 58, 49] ∧ WFName netCfg.nameWs [97, 32, 58, 47, 98] := by
-  refine ⟨⟨by decide, ?_, ?_, by decide, by decide⟩, ⟨by decide, ?_, ?_, by decide, by decide⟩⟩ <;>
+  refine ⟨⟨by decide, ?_, ?_, by decide⟩, ⟨by decide, ?_, ?_, by decide⟩⟩ <;>
     (intro c hc; simp at hc; subst hc; decide)
+
+/-- a whole file: two interfaces, one with `:` and a `\r` inside its name, headers with a `\r` -/
+example : NetWF netCfg.nameWs [72, 13] [104] [⟨[108, 111], 1, 2, 3, 4, 5, 6, 7, 8, 9, 10, 11, 12, 13, 14, 15, 16⟩,
+                                              ⟨[97, 58, 13, 98], 0, 0, 0, 0, 0, 0, 0, 0, 0, 0, 0, 0, 0, 0, 0, 0⟩] := by
+  refine ⟨by decide, by decide, ?_, by decide⟩
+  intro i hi
+  simp at hi
+  rcases hi with rfl | rfl <;> refine ⟨by decide, ?_, ?_, by decide⟩ <;> (intro c hc; simp at hc; subst hc; decide)
 
 example : DiskWF [⟨8, 0, [115, 100, 97], false, .full ⟨1, 2, 3, 4, 5, 6, 7, 8, 9, 10, 11⟩ []⟩,
                   ⟨8, 1, [115, 100, 97, 49], true, .part 1 2 3 4⟩,
